@@ -155,13 +155,20 @@ fn dump_primitive_fn<
         };
     }
 
-    // TODO: error handle file write
-    input
+    let write_result = input
         .state()
         .file_system()
         .borrow_mut()
-        .write_bytes(&output_file, &serialized)
-        .unwrap();
+        .write_bytes(&output_file, &serialized);
+    if let Err(err) = write_result {
+        return Err(input.fatal_error(
+            error::SimpleFailedPreconditionError::new(format![
+                "could not write the format file `{}`",
+                output_file.display()
+            ])
+            .with_note(format!["underlying filesystem error: {err}"]),
+        ));
+    }
     input.state_mut().component_mut().num_dumps += 1;
     Ok(())
 }
